@@ -181,6 +181,18 @@ let () =
            | "checkonly" -> if check_only_ok (names_of_string (a 1)) then "true" else "false"
            | "place" -> string_of_name (place_name (name_of_string (a 1)) (a 2 = "1"))
            | "unplace" -> (match place_to_variable (name_of_string (a 1)) with None -> "none" | Some (v, b) -> string_of_name v ^ " " ^ (if b then "1" else "0"))
+           | "pyfun" ->
+               (* the functions generated from the Python sources by tools/py2coq.py (theories/PySrc.v); dicts as k:v,k:v in insertion order *)
+               let dict_of s = if s = "-" then [] else List.map (fun kv -> match String.split_on_char ':' kv with
+                                   | [k; v] -> (nat_of_int (int_of_string k), v = "1") | _ -> failwith "dict") (String.split_on_char ',' s) in
+               let str_dict d = if d = [] then "-" else String.concat "," (List.map (fun (k, v) -> Printf.sprintf "%d:%d" (int_of_nat k) (if v then 1 else 0)) d) in
+               (match a 1 with
+                | "is_subspace" -> (match py_is_subspace (dict_of (a 2)) (dict_of (a 3)) with None -> "raise" | Some b -> if b then "1" else "0")
+                | "intersect" -> (match py_intersect (dict_of (a 2)) (dict_of (a 3)) with None -> "raise" | Some None -> "none" | Some (Some d) -> str_dict d)
+                | "space_unique_key" -> (match py_space_unique_key (dict_of (a 2)) (nat_of_int (int_of_string (a 3))) with None -> "raise" | Some k -> string_of_int (int_of_n k))
+                | "variable_to_place" -> (match py_variable_to_place (name_of_string (a 2)) (a 3 = "1") with None -> "raise" | Some s -> string_of_name s)
+                | "place_to_variable" -> (match py_place_to_variable (name_of_string (a 2)) with None -> "raise" | Some (v, b) -> string_of_name v ^ " " ^ (if b then "1" else "0"))
+                | x -> failwith ("unknown pyfun " ^ x))
            | "filter" ->
                (* filter SEEDSONLY MOTIFS CANDS : Filter.compute_attractors_filter; sets printed as sorted state lists *)
                let (seeds, sets) = compute_attractors_filter !net (a 1 = "1") (spaces_of_string (a 2)) (states_of_string (a 3)) in
